@@ -33,6 +33,11 @@ pub broadcast axiom fn axiom_finv(a: nat)
     requires 0 < a < P
     ensures #[trigger] finv(a) < P, fmul(a, finv(a)) == 1;
 
+/// P is prime: the field has no zero divisors (mathematical fact about the Stark-252 prime, assumed)
+pub broadcast axiom fn axiom_field_integral(a: nat, b: nat)
+    requires 0 < a < P, 0 < b < P
+    ensures #[trigger] fmul(a, b) != 0;
+
 #[verifier::external_body]
 #[derive(Clone, Copy)]
 pub struct Felt { _x: [u64; 4] }
